@@ -581,7 +581,9 @@ def _typed_case(case, cwd):
         # -- dump, nulls kept
         report("dump", *run_dump_channel("dump", formats, skip_none=False), formats)
         # -- yaml with help comments (what --print_config=comments prints)
-        if mode == "yaml":
+        # (quick: not on the flat G_2 cases - the scalar layer runs it for every string at the str and key positions,
+        # G_1 and every structured shape for every type)
+        if mode == "yaml" and case.get("yc", True):
             report("dump-yaml_comments", *run_dump_channel("dump-yaml_comments", ("yaml_comments",), skip_none=False), ("yaml_comments",))
         # -- skip_default (documented as lossless)
         report("dump-skip_default", *run_dump_channel("dump-skip_default", formats, skip_none=False, skip_default=True), formats)
@@ -874,8 +876,10 @@ def typed_cases(tier):
     pc_full = PC_ALL if quick else PC_THOROUGH
     sv = "mode" if quick else "all"
 
-    def add(shape, t, d, v, mode="yaml", pc=pc_full):
+    def add(shape, t, d, v, mode="yaml", pc=pc_full, yc=True):
         cases.append({"layer": "typed", "shape": shape, "type": t, "default": d, "value": v, "mode": mode, "pc": pc, "sv": sv})
+        if not yc:
+            cases[-1]["yc"] = False  # no dump(yaml_comments=True) channel for this case
 
     # G_1: every leaf, wide pool, flat parser.  quick: --print_config plain and =skip_default here (the other
     # flags are exercised on every structured shape; their text is that of the dump channels run for every case)
@@ -907,7 +911,7 @@ def typed_cases(tier):
             nd = len(ds)
         for d in ds[:nd]:
             for v in pool(t, wide_str=not quick):
-                add("flat", t, d, v, pc=None if quick else pc_full)
+                add("flat", t, d, v, pc=None if quick else pc_full, yc=not quick)
         if not quick:
             for v in pool(t):
                 add("flat", t, UNSET, v, "json")
